@@ -35,7 +35,7 @@ pub fn break_even(rng: &mut Rng, n: usize, method: u8) -> Vec<Vec<u8>> {
 
 pub fn spellings(rng: &mut Rng, n: &str) -> Vec<String> {
     let mixed: String = n.chars().map(|c| if rng.chance(1, 2) { c.to_ascii_uppercase() } else { c.to_ascii_lowercase() }).collect();
-    vec![n.to_string(), n.to_uppercase(), n.to_lowercase().replace('\\', "/"), mixed]
+    vec![n.to_string(), n.to_ascii_uppercase(), n.to_ascii_lowercase().replace('\\', "/"), mixed]
 }
 
 pub fn gen_case(rng: &mut Rng, lossless_only: bool) -> (Cfg, Vec<F>) {
@@ -51,6 +51,14 @@ pub fn gen_case(rng: &mut Rng, lossless_only: bool) -> (Cfg, Vec<F>) {
         let class = rng.below(5);
         let name = match i { 0 => "Data\\File0.txt".to_string(), 1 => "b.bin".to_string(), 2 => "Interface\\Glue\\TheQuickBrownFoxJumpsOverLazyDog_0189.blp".to_string() /* every letter takes part in case folding */, _ => format!("Dir{}\\Sub\\f{}.dat", i % 2, i) };
         files.push(F { name, data: content(rng, len, class), method: *rng.pick(methods), enc: rng.below(3) as u8 });
+    }
+    // one case in four carries names that differ ONLY in the case of a non-ASCII letter: the format folds ASCII letters only, so
+    // these are different files (a Unicode-aware fold anywhere on the way would merge them)
+    if rng.chance(1, 4) {
+        for n in ["Sound\\Music\\Übersicht.txt", "Sound\\Music\\übersicht.txt", "ÀÉ.dat", "àÉ.dat"] {
+            let len = rng.range(1, 900) as usize; let class = rng.below(5);
+            files.push(F { name: n.to_string(), data: content(rng, len, class), method: *rng.pick(methods), enc: 0 });
+        }
     }
     // one case in three carries names whose extended-table byte is the largest / smallest possible (0xFF, 0x80), two of them
     // colliding, next to ordinary names
